@@ -85,11 +85,21 @@ HistCases ==
   { [side |-> "srv", ctxs |-> cl, upds |-> us, insp |-> FALSE, first |-> "tls", hello |-> H(s, FALSE, a, "none", 12)] :
       cl \in {hS}, us \in SelUpds, s \in {<<>>, nA, nB, nS, nU, nXA}, a \in { {}, {"h2"}, {"http/1.1"} } }
 
-QuickSrv(x) == SelCases(QuickProfiles, 3, QuickSnis, QuickAlpns, {12, 13}) \cup AuthCases({12, 13}) \cup InspCases \cup HistCases
-ThoroughSrv(x) == SelCases(ThoroughProfiles, 3, ThoroughSnis, ThoroughAlpns, {12, 13}) \cup AuthCases({12, 13}) \cup InspCases \cup HistCases
+(* the listener's inspector flag switched by an in-place listener update (alone, switched back, combined with a context
+   update in either order); after the last update a plaintext and a TLS client connect *)
+InspHist(b) ==
+  { [side |-> "srv", ctxs |-> cl, upds |-> us, insp |-> b, first |-> f, hello |-> H(s, FALSE, {}, "none", 12)] :
+      cl \in { <<pA>>, <<pB, pA>> }, f \in {"tls", "plain"}, s \in {<<>>, nA},
+      us \in { <<U(0, "inspector", ~b)>>, <<U(0, "inspector", ~b), U(0, "inspector", b)>>,
+               <<U(0, "inspector", ~b), U(1, "sn", nU)>>, <<U(1, "alpn", {"h2"}), U(0, "inspector", ~b)>>,
+               <<U(0, "inspector", b)>> } }
+HistAll == HistCases \cup InspHist(TRUE) \cup InspHist(FALSE)
+
+QuickSrv(x) == SelCases(QuickProfiles, 3, QuickSnis, QuickAlpns, {12, 13}) \cup AuthCases({12, 13}) \cup InspCases \cup HistAll
+ThoroughSrv(x) == SelCases(ThoroughProfiles, 3, ThoroughSnis, ThoroughAlpns, {12, 13}) \cup AuthCases({12, 13}) \cup InspCases \cup HistAll
 (* small universe for the defect-rejection runs *)
 SmallSrv(x) == SelCases({pA, pW, pB, pAn}, 2, { <<<<>>, FALSE>>, <<nA, FALSE>>, <<nH2, FALSE>>, <<nU, FALSE>> }, { {}, {"h2"} }, {13})
-            \cup AuthCases({13}) \cup InspCases \cup HistCases
+            \cup AuthCases({13}) \cup InspCases \cup HistAll
 
 MCSrv == CASE Tier = "quick" -> QuickSrv(0) [] Tier = "thorough" -> ThoroughSrv(0) [] OTHER -> SmallSrv(0)
 
